@@ -177,7 +177,11 @@ class _Beam(_IModel):
         # make sure that the section is centered in (0,0)
         section.Translate(*-section.center)
         Iyz = section.groupElem.Integrate_e(lambda x, y, z: x * y).sum()
-        assert np.abs(Iyz) <= 1e-9, "The section must have at least 1 symetry axis."
+        # product of inertia compared with the second moments (length^4): independent of the length unit
+        Iyy_zz = section.groupElem.Integrate_e(lambda x, y, z: x**2 + y**2).sum()
+        assert (
+            np.abs(Iyz) <= 1e-9 * Iyy_zz
+        ), "The section must have at least 1 symetry axis."
         self.Need_Update()
         self.__section: "Mesh" = section
 
